@@ -71,9 +71,10 @@ _NT = collections.namedtuple('_NT', ['a', 'b'])
 # Concrete Python values behind the specification's abstract literal ids.  They stress the text
 # level (quoting, escapes, line wrapping, numeric edge cases); all are literally representable.
 LIT_POOL = [
-    's', 7, -3, 2.5, -0.0, 1e300, 10**20, True, None, b'by', 'with space', 'qu\'ote"s', 'line\nbreak', ' lead ',
-    (1, 'a'), [1, [2, 'x']], {'k': (1,), 2: None}, '', 'x' * 90, 'back\\slash', 1e-7, -10**15, False,
-    'long ' * 30, [('t', 1.5), {'n': [None, True]}], 0, 'unicod\u00e9',
+    's', 7, -3, 2.5, -0.0, 1e300, 10**20, True, None,   # pairwise unequal (no 0 / False next to -0.0, no 1 next to True): they also serve as dict keys
+    b'by', 'with space', 'qu\'ote"s', 'line\nbreak', ' lead ',
+    (1, 'a'), [1, [2, 'x']], {'k': (1,), 2: None}, '', 'x' * 90, 'back\\slash', 1e-7, -10**15,
+    'long ' * 30, [('t', 1.5), {'n': [None, True]}], 'unicod\u00e9',
 ]
 # ... and values with no literal form (must be omitted from config strings, never printed)
 def _nonlit_pool():
@@ -348,6 +349,10 @@ class World:
       return ['tuple', [self.to_spec(i) for i in x]]
     if isinstance(x, dict):
       return ['dict', [[self.to_spec(k), self.to_spec(v)] for k, v in x.items()]]
+    if isinstance(x, type):
+      c = config._inverse_lookup(x)
+      if c is not None and x is c.wrapper:          # gin.configurable on a class: the class itself is the configurable
+        return ['fnref', c.selector.split('.'), []]
     for sel, obj in self.originals.items():
       if isinstance(x, type) and isinstance(obj, type) and (x is obj):
         return ['orig', sel.split('.')]
